@@ -328,6 +328,22 @@ def _shrunk_fail(col, before, rerun, key="ops"):
                 col.failures[bucket] = g
 
 
+def _shrink_new(col, before, keys, rerun):
+    """Quick-tier structural delta debugging of table / CSV failures (thorough uses Hypothesis' shrinker)."""
+    for bucket in [b for b in col.failures if b not in before]:
+        orig = col.failures[bucket]["data"]
+        data = orig
+        for key in keys:
+            data = shrink_ops(data, bucket, rerun, key, budget=120)
+        if any(len(data[k]) < len(orig[k]) for k in keys):
+            c2 = Collector()
+            rerun(data, c2)
+            if bucket in c2.failures:
+                g = c2.failures[bucket]
+                g["shrunk"] = True
+                col.failures[bucket] = g
+
+
 def make_vs_machine(col, mode, CT, samples=0):
     nsamples = [samples]
     from hypothesis.stateful import RuleBasedStateMachine, precondition, rule
@@ -860,8 +876,16 @@ def run_shard(spec, ctx):
         )
     elif kind == "table":
 
+        def rerun_table(d, c=None):
+            c = c if c is not None else Collector()
+            check_table(d, c, CT, A, State, VN)
+            return set(c.failures)
+
         def body(case, col):
+            before = set(col.failures)
             stats = check_table(case, col, CT, A, State, VN)
+            if len(col.failures) > len(before) and not ctx.thorough:
+                _shrink_new(col, before, ["table", "seq"], rerun_table)
             col.case(key=("table", repr(case["table"]), repr(case["seq"])),
                      nontrivial=bool(stats.get("any") and stats.get("multi")),
                      labels=table_labels(case, stats),
@@ -874,8 +898,16 @@ def run_shard(spec, ctx):
         os.close(fd)
         try:
 
+            def rerun_csv(d, c=None):
+                c = c if c is not None else Collector()
+                check_csv(dict(d, text=None), c, CT, path)
+                return set(c.failures)
+
             def body(case, col):
+                before = set(col.failures)
                 info = check_csv(case, col, CT, path)
+                if len(col.failures) > len(before) and not ctx.thorough:
+                    _shrink_new(col, before, ["rows"], rerun_csv)
                 col.case(key=("csv", case["text"]), nontrivial=info["ditto_nonempty"] > 0,
                          labels=csv_labels(case, info),
                          sample=(lambda: {"kind": "csv", "text": case["text"]}) if (
